@@ -179,6 +179,20 @@ class Conformance:
             tol = CDF_TOL
             self.worst["cdf"] = max(self.worst["cdf"], err)
         self.rep.count(f"oracle_cdf[{why}]")
+        if a == b and reg != "point" and err <= tol and err > 1e-12 * tv:
+            # the clause reads "1e-12 relative": 0.5*(1+erf) cannot deliver that once the true value is below ~1e-4
+            # (absolute error ~1e-16).  Recorded finding, keyed only while the error is at the rounding level of 1.
+            if err <= 4e-16:
+                self.n_tail = getattr(self, "n_tail", 0) + 1
+                if self.n_tail <= 3:
+                    self.rep.violate(
+                        what=f"a=b, o>0: cdf(y) is not within 1e-12 RELATIVE of the normal law in the lower tail (abs err {err:.3g}, true {tv:.3g})",
+                        input=inp_of(a, b, c, o, cv, y), expected=float(tv), observed=float(ic),
+                        call="NoisyQuadraticDistribution.cdf", finding_key="C06-degenerate-normal-lower-tail-not-1e-12-relative", found_by=why)
+                else:
+                    self.rep.count("known_tail_relative_repeats")
+                return True
+            tol = 1e-12 * tv
         if err > tol:
             key = None
             self.rep.violate(
@@ -223,6 +237,21 @@ class Conformance:
             self.rep.violate(what="pdf(y) is negative or nan", input=inp_of(a, b, c, o, cv, y), observed=float(ip),
                              call="NoisyQuadraticDistribution.pdf")
             return False
+        if a == b and err <= tol and tv > 0 and err > 1e-12 * tv:
+            # "1e-12 relative" for the exact normal law: exp(-x*x/2) inherits the rounding of its argument,
+            # relative error ~ (x*x/2)*2^-53 (the same mechanism as the recorded C16 normal_pdf finding)
+            xx = (y - a) / o
+            if err <= (xx * xx / 2 + 4) * 2.0 ** -52 * tv:
+                self.n_tailp = getattr(self, "n_tailp", 0) + 1
+                if self.n_tailp <= 3:
+                    self.rep.violate(
+                        what=f"a=b, o>0: o*pdf(y) is not within 1e-12 RELATIVE of the normal density (rel err {err / tv:.3g} at |x|={abs(xx):.3g})",
+                        input=inp_of(a, b, c, o, cv, y), expected=float(tv), observed=float(ip),
+                        call="NoisyQuadraticDistribution.pdf", finding_key="C06-degenerate-normal-pdf-argument-rounding", found_by=why)
+                else:
+                    self.rep.count("known_tail_relative_repeats")
+                return True
+            tol = 1e-12 * tv
         if err > tol:
             self.rep.violate(
                 what=f"{scale_name} differs from the convolution density by {err:.3g} > {tol:.3g} (regime {reg})",
